@@ -152,6 +152,11 @@ def main():
                 ck.machinery_failure("mutant spec %s not killed (expected %s violated, got %s)" % (cfg, inv, m.violated))
             killed += 1
         ck.note("mutant_specs_killed", killed)
+        c = tlc.run(SPEC, "Priors", "MC_tiny.cfg", coverage=True, name="Priors-coverage")
+        n = c.coverage.get("Step", (0, 0))
+        if max(n) == 0:
+            ck.machinery_failure("action Step never taken in MC_tiny.cfg")
+        ck.note("action_coverage_small_instances", {"Step": {"distinct": min(n), "generated": max(n)}})
     except tlc.TLCError as e:
         ck.machinery_failure(str(e))
     if len(states) != r.distinct:
@@ -212,7 +217,7 @@ def main():
 
     # ---- code -> spec: recorded calls on random exactly-representable parameters ----
     n_tr = 60 if tier == "quick" else 500
-    batches = 4 if tier == "quick" else 16
+    batches = 2 if tier == "quick" else 16
     res = pool.map_tasks("impl.c05", [{"op": "random_trace", "n": n_tr // batches + 1, "seed": ck.seed * 1000 + b}
                                       for b in range(batches)], mode="jit", warm_first=False)
     first_ev = None
@@ -253,31 +258,43 @@ def main():
         ck.nontrivial += sum(1 for e in ev if e["op"] in ("geno", "cond", "asm") and e["e"] > 0)
     if first_ev:
         ck.sample({"kind": "recorded-trace-prefix", "events": first_ev[:3]})
-        # binding demonstration: corrupted recorded fields must be rejected, each for its own clause
-        bad = []
-        beg = first_ev[0]
-        genos = [e for e in first_ev[1:] if e["op"] == "geno"][:2]
-        g1 = dict(genos[0])
-        g1["q"] = g1["q"] + 2 if g1["q"] else 5         # value off by two units in the 9th digit
-        bad += [beg, g1]
-        wanted = ["GenotypePriorIsWOverZ"]
-        if beg["walk"] == 1 and len(genos) > 1:
-            g3 = dict(genos[1])                          # walk skips a genotype
-            g3["g"] = list(g3["g"])
-            g3["g"][-1] = min(g3["g"][-1] + 1, beg["K"] - 1) if beg["K"] > 1 else g3["g"][-1]
-            if g3["g"] != genos[1]["g"]:
-                bad.append(g3)
-                wanted.append("WalkIsVcfOrder")
-            bad.append({"op": "end"})
-            wanted.append("WalkVisitsEveryGenotype")
-        tfb = os.path.join(ck.wd, "trace-corrupt.json")
+    # binding demonstration, built from the MODEL's own values (independent of the implementation):
+    # the faithful walk must be accepted line by line, each corrupted field rejected for its own clause
+    kd = next(k for k in sums if k[0] == 3 and k[1] == 3 and k[2] > 0 and not k[6] and min(k[5]) > 0 and len(set(k[5])) > 1)
+    walk = [s for s in states if inst_key(s) == kd]
+
+    def quant(s):
+        W, Z = s["perms"] * prod(s["of"]), prod(s["zf"])
+        e = 0
+        while W * 10 ** (9 + e) < Z * 10**8:
+            e += 1
+        rnd = lambda num, den: (2 * num + den) // (2 * den)
+        return rnd(W * 10 ** (9 + e), Z), e, rnd(W * 10**9, Z)
+
+    good = [{"op": "begin", "P": kd[0], "K": kd[1], "fn": kd[2], "fd": kd[3], "m": kd[4], "n": list(kd[5]), "walk": 1}]
+    for s in walk:
+        q, e, q0 = quant(s)
+        good.append({"op": "geno", "g": s["g"], "q": q, "e": e, "q0": q0})
+    good.append({"op": "end"})
+    s1 = walk[4]
+    good.append({"op": "cond", "g": s1["g"], "t": 2, "q": (2 * s1["cond"][1][0] * 10**9 + s1["cond"][1][1]) // (2 * s1["cond"][1][1]), "e": 0})
+    bad = json.loads(json.dumps(good))
+    bad[2]["q"] += 2                                   # value off by two units in the 9th digit
+    del bad[5]                                         # the walk skips a genotype ...
+    bad[-1]["q"] += 7
+    wanted = ["GenotypePriorIsWOverZ", "WalkIsVcfOrder", "WalkVisitsEveryGenotype", "ConditionalIsUrnPredictive"]
+    for name, evs, want in (("trace-faithful.json", good, []), ("trace-corrupt.json", bad, wanted)):
+        tfb = os.path.join(ck.wd, name)
         with open(tfb, "w") as fh:
-            json.dump(bad, fh)
-        t = tlc.run(SPEC, "TracePriors", "Trace.cfg", workers=1, extra_env={"TRACE_FILE": tfb}, name="TracePriors-corrupt")
+            json.dump(evs, fh)
+        try:
+            t = tlc.run(SPEC, "TracePriors", "Trace.cfg", workers=1, extra_env={"TRACE_FILE": tfb}, name="TracePriors-demo")
+        except tlc.TLCError as e:
+            ck.machinery_failure(str(e))
         got = [p["clause"] for p in t.printed if "reject" in p]
-        if got != wanted:
-            ck.machinery_failure("corrupted trace: expected rejections %s, got %s" % (wanted, got))
-        ck.note("corrupted_traces_rejected", len(got))
+        if got != want:
+            ck.machinery_failure("%s: expected rejections %s, got %s" % (name, want, got))
+    ck.note("corrupted_traces_rejected", len(wanted))
 
     # ---- arbitrary float parameters: the TLC-checked theorems as numeric relations ----
     nf = 40 if tier == "quick" else 400
